@@ -193,7 +193,7 @@ fn execute(exe: &str, dir: &str, id: u64, text: &str, route: &Route, opts: &[Str
     let stdin = if route.src == "stdin" {
         Some(text)
     } else {
-        std::fs::write(&inpath, text).unwrap();
+        std::fs::write(&inpath, cli::raw_bytes(text)).unwrap();
         args.push("-i".into());
         args.push(inpath.clone());
         None
@@ -802,8 +802,13 @@ fn record_c17(sink: &mut Sink, exe: &str, dir: &str, games: &[(String, Tree)], r
         // a complete document followed by something else is not a document
         let tail_node = format!("{text}t \"\" 1 {{ 0 0 }}\n");
         let tail_junk = format!("{text}}} trailing\n");
+        // a byte that is not UTF-8 inside the first quoted string (a name): not a text in either format
+        let bad_utf8 = match text.find('"') {
+            Some(i) => format!("{}{}{}", &text[..i + 1], cli::BAD_BYTE, &text[i + 1..]),
+            None => format!("{}{text}", cli::BAD_BYTE),
+        };
         for (what, class, txt) in [("truncated", "junk", cut), ("huge-payoff", "efg-huge", huge), ("missing-braces", "junk", nofield), ("garbage", "junk", "this is not a game\n".to_string()),
-                                   ("trailing-node", "junk", tail_node), ("trailing-junk", "junk", tail_junk)] {
+                                   ("trailing-node", "junk", tail_node), ("trailing-junk", "junk", tail_junk), ("invalid-utf8", "junk", bad_utf8)] {
             for k in 0..nroutes.min(4) {
                 let route = &routes[(k * 3 + gi) % routes.len()];
                 case(sink, name, what, class, &txt, None, route, runs);
@@ -826,6 +831,10 @@ fn record_c17(sink: &mut Sink, exe: &str, dir: &str, games: &[(String, Tree)], r
             variants.push(("no-actions", "json-contract", empty_first_actions(&js).to_string()));
         }
         variants.push(("trailing-brace", "junk", format!("{good}}}")));
+        if let Some(i) = good.find("\"infoset\":\"") {
+            let at = i + "\"infoset\":\"".len();
+            variants.push(("invalid-utf8", "junk", format!("{}{}{}", &good[..at], cli::BAD_BYTE, &good[at..])));
+        }
         variants.push(("trailing-document", "junk", format!("{good} {good}")));
         variants.push(("trailing-text", "junk", format!("{good}\nEFG 2 R")));
         variants.push(("trailing-space", "json-ok", format!("{good} \n\n")));
